@@ -124,4 +124,33 @@ CLAIMS = {
         note="Compiled against the Eigen stand-in. The recorder derives from the generated filter and only logs; readings derive "
         "from the generated reading types and only log.",
     ),
+    "C13": dict(
+        category="exploration",
+        ref="4/C13",
+        technique="exhaustive enumeration of name lists x keyword subsets x keyword orders for the constructors, and of all sort-order permutations via renamings (plus declaration order/container flips) for models, compared output-by-name on the real Python code and the compiled C++",
+        text="Construction: every subset of a 10-name pool (upper/lower/digit/underscore orderings) up to size 3, every keyword "
+        "subset in every order, unknown names and wrong shapes. Metamorphic: for each base program every permutation of the "
+        "internal layout is realised by a renaming; the renamed, re-ordered, container-flipped twin must give the same named "
+        "outputs in Python and in compiled C++.",
+        note="Names avoid identifiers the generator reserves in C++. C++ via the Eigen stand-in.",
+    ),
+    "C14": dict(
+        category="fault_enumeration",
+        ref="4/C14",
+        technique="exhaustive enumeration of every single structural fault (and every pair of different kinds) at every applicable position of 8 valid seed definitions, presented to all four compile entry points",
+        text="Deviation-bounded enumeration: 0 faults (valid seeds must be accepted and produce output), every 1-fault variant, "
+        "then every 2-fault variant of different kinds, each presented to python.compile, python.compile_ekf, cpp.compile and "
+        "cpp.compile_ekf; a faulty definition must raise and leave nothing behind.",
+        note="Any exception type counts as refusal. Seeds are small BIND programs; the fault menu is the property's list.",
+    ),
+    "C15": dict(
+        category="exploration",
+        ref="4/C15",
+        technique="exhaustive matrix of definitions x declaration-order/container variants x PYTHONHASHSEED values (one interpreter process per seed), comparing full generated text and Python layout",
+        text="Every cell of the (definition, declaration order, container, hash seed) matrix is generated by the real entry "
+        "points in a fresh interpreter; all cells of one definition must produce byte-identical header/source (EKF and "
+        "model-only) and an identical Python layout. Differences are reported with a unified diff.",
+        note="Hash seeds 0..7 quick, 0..63 thorough; the seed space (2^32) is sampled by enumeration of a prefix - set iteration "
+        "order of <= 8 symbols takes few distinct values, which 64 seeds cover with overwhelming likelihood but not provably.",
+    ),
 }
